@@ -1397,67 +1397,84 @@ def _gen_value(rng, ty, case):
     raise ValueError("no generator for type %s" % ty)
 
 
+_VAL_PREAMBLE = ("From Coq Require Import String PrimFloat.\nFrom AQ Require Import lib.Base model.LogVal gen.LogEncoders.\n"
+                 "Open Scope string_scope.\nOpen Scope Z_scope.\n")
+
+
+def _val_case(methods, name, cs):
+    """one logval case, fully determined by (method name, case seed): runs the real method, returns the case record
+    (with the implementation's tokens and the oracle verdict) and the Coq expression for the model"""
+    from aioquic.quic import logger as ql
+    params = dict(methods)[name]
+    rng = random.Random(cs)
+    case = {"suite": "logval", "method": name, "seed": cs, "model_comparable": True}
+    odcid = bytes(rng.randrange(256) for _ in range(rng.randrange(0, 21)))
+    trace = ql.QuicLoggerTrace(is_client=rng.random() < 0.5, odcid=odcid)
+    pre_events = [{"data": {"n": k}, "name": "x:y", "time": float(k)} for k in range(rng.randrange(0, 3))]
+    trace._events.extend(pre_events)
+    self_term = '(VObj "QuicLoggerTrace" [("_odcid", %s); ("_events", %s); ("_vantage_point", %s)])' % (
+        _cjson(odcid), _cjson(pre_events), _cjson(trace._vantage_point))
+    now = rng.uniform(0, 2e9)
+    kwargs, terms, shown = {}, [], {}
+    for pname, ty in params:
+        if pname == "self":
+            terms.append(self_term)
+        elif pname == "%time":
+            terms.append(_cjson(now))
+        else:
+            v, t = _gen_value(rng, ty, case)
+            kwargs[pname] = v
+            terms.append(t)
+            shown[pname] = repr(v)[:200]
+    case.update({"args": shown, "odcid": list(odcid), "now": now})
+    saved = ql.time.time
+    ql.time.time = lambda: now
+    err = None
+    try:
+        if name == "hexdump":
+            got = ql.hexdump(**kwargs)
+        else:
+            got = getattr(trace, name)(**kwargs)
+            if name == "log_event":
+                got = trace._events[-1]
+        impl = [0] + _pyser(got)
+        try:
+            json.loads(json.dumps(got))
+        except Exception as exc:
+            err = ("QuicLoggerTrace.%s returned a value json.dumps rejects (%r) for arguments of its declared types %r" % (name, exc, shown),
+                   {"rule": "encoder_json", "exception": type(exc).__name__, "site": name})
+    except Exception as exc:
+        impl = [1, _EXN.get(type(exc).__name__, 99)]
+        tb = traceback.extract_tb(exc.__traceback__)
+        err = ("QuicLoggerTrace.%s raised %r on arguments of its declared types %r" % (name, exc, shown),
+               {"exception": type(exc).__name__, "site": tb[-1].name if tb else name})
+    finally:
+        ql.time.time = saved
+    case["impl"] = impl
+    return case, err, "call_named enc_tabs enc_methods %s [%s]" % (_cq(name), "; ".join(terms))
+
+
 def val_suite(ctx, n):
     """every generated method body (model/LogVal.v, by vm_compute) against the real method of the tree under test"""
-    from aioquic.quic import logger as ql
     methods, summary = _gen_methods()
     rng = ctx.rng
-    preamble = ("From Coq Require Import String PrimFloat.\nFrom AQ Require Import lib.Base model.LogVal gen.LogEncoders.\n"
-                "Open Scope string_scope.\nOpen Scope Z_scope.\n")
     cases, exprs = [], []
     stats = collections.Counter()
+    seen_sigs = set()
     for i in range(n):
-        name, params = methods[i % len(methods)] if i < 2 * len(methods) else rng.choice(methods)
-        case = {"method": name, "model_comparable": True}
-        odcid = bytes(rng.randrange(256) for _ in range(rng.randrange(0, 21)))
-        is_client = rng.random() < 0.5
-        trace = ql.QuicLoggerTrace(is_client=is_client, odcid=odcid)
-        pre_events = [{"data": {"n": k}, "name": "x:y", "time": float(k)} for k in range(rng.randrange(0, 3))]
-        trace._events.extend(pre_events)
-        self_term = '(VObj "QuicLoggerTrace" [("_odcid", %s); ("_events", %s); ("_vantage_point", %s)])' % (
-            _cjson(odcid), _cjson(pre_events), _cjson(trace._vantage_point))
-        now = rng.uniform(0, 2e9)
-        kwargs, terms, shown = {}, [], {}
-        for pname, ty in params:
-            if pname == "self":
-                terms.append(self_term)
-            elif pname == "%time":
-                terms.append(_cjson(now))
-            else:
-                v, t = _gen_value(rng, ty, case)
-                kwargs[pname] = v
-                terms.append(t)
-                shown[pname] = repr(v)[:200]
-        case.update({"args": shown, "odcid": list(odcid), "now": now})
-        # implementation
-        saved = ql.time.time
-        ql.time.time = lambda: now
-        try:
-            if name == "hexdump":
-                got = ql.hexdump(**kwargs)
-            else:
-                got = getattr(trace, name)(**kwargs)
-                if name == "log_event":
-                    got = trace._events[-1]
-            json.loads(json.dumps(got))
-            impl = [0] + _pyser(got)
-            err = None
-        except Exception as exc:
-            impl = [1, _EXN.get(type(exc).__name__, 99)]
-            tb = traceback.extract_tb(exc.__traceback__)
-            err = ("QuicLoggerTrace.%s raised %r on arguments of its declared types %r" % (name, exc, shown),
-                   {"exception": type(exc).__name__, "site": tb[-1].name if tb else name})
-        finally:
-            ql.time.time = saved
+        name = methods[i % len(methods)][0] if i < 2 * len(methods) else rng.choice(methods)[0]
+        case, err, expr = _val_case(methods, name, rng.getrandbits(48))
         stats["cases"] += 1
         stats["by_method:" + name] += 1
-        if err:      # implementation oracle: encoders_total on the code itself
+        if err:      # implementation oracle: encoders_total / JSON on the code itself
             stats["oracle_failures"] += 1
-            ctx.violation("impl-violation", "logval: " + err[0], corr._short(case, 3000), signature=err[1])
-        case["impl"] = impl
+            key = json.dumps(err[1], sort_keys=True)
+            if key not in seen_sigs:
+                seen_sigs.add(key)
+                ctx.violation("impl-violation", "logval: " + err[0], corr._short(case, 3000), signature=err[1])
         cases.append(case)
-        exprs.append("call_named enc_tabs enc_methods %s [%s]" % (_cq(name), "; ".join(terms)))
-    outs = core.run_vm(preamble, exprs)
+        exprs.append(expr)
+    outs = core.run_vm(_VAL_PREAMBLE, exprs)
     reported = False
     for case, out in zip(cases, outs):
         if not case["model_comparable"]:
@@ -1608,6 +1625,11 @@ def replay(ctx, rep):
     case = rep["case"]
     if isinstance(case, str):
         case = json.loads(case)
+    if case.get("suite") == "logval":      # generated encoder model vs the real method
+        methods, _ = _gen_methods()
+        c2, err, expr = _val_case(methods, case["method"], case["seed"])
+        return {"impl": c2["impl"], "model": core.run_vm(_VAL_PREAMBLE, [expr])[0], "args": c2["args"],
+                "oracle": {"what": err[0], "signature": err[1]} if err else None}
     if "k" in case:       # encoder correspondence case
         bad = enc_oracle(case)
         return {"impl": enc_impl(case), "model": core.run_model("exec_logenc", [enc_encode(case)], shards=1)[0],
